@@ -107,6 +107,72 @@ def expected_deps(exp):
   return sorted(deps.dependencies.items()), sorted(deps.late_dependencies.items())
 
 
+_SIMPLE = ("NamedType", "ClassType", "LateType")
+
+
+def _raw_key(d):
+  """Own re-statement of the canonical order for name-only type nodes: class name first,
+  then the name (Node.__lt__: other class -> class names; same class -> stringified
+  fields, i.e. the name)."""
+  return (d["_struct_type"], d.get("name", ""), str(d.get("recursive", False)))
+
+
+def raw_canonical_problems(data, c):
+  """Walks the plain msgpack tree (dicts/lists).  Yields (mechanism key, witness)."""
+  import msgspec
+  root = msgspec.msgpack.decode(data)
+  seen = set()
+  out = []
+
+  def report(key, **kw):
+    if key not in seen:
+      seen.add(key)
+      out.append((key, kw))
+
+  def names(xs):
+    return [f"{x.get('_struct_type')}:{x.get('name')}" for x in xs][:8]
+
+  def check_sorted(xs, what):
+    if len(xs) < 2:
+      return
+    if all(isinstance(x, dict) and x.get("_struct_type") in _SIMPLE for x in xs):
+      c["raw_sorted_collections_judged"] += 1
+      if [_raw_key(x) for x in xs] != sorted(_raw_key(x) for x in xs):
+        report(f"encoded {what} is not in canonical order (name-only members, own key)",
+               members=names(xs))
+    else:
+      c["raw_sorted_collections_not_judged(mixed members)"] += 1
+
+  def walk(x):
+    if isinstance(x, dict):
+      t = x.get("_struct_type")
+      if t in ("UnionType", "IntersectionType"):
+        tl = x.get("type_list", [])
+        c["raw_unions"] += 1
+        if any(isinstance(m, dict) and m.get("_struct_type") == t for m in tl):
+          report(f"encoded {t} contains a nested {t} (decoding flattens it)", members=names(tl))
+        for i, m in enumerate(tl):
+          if any(m == n for n in tl[:i]):
+            report(f"encoded {t} contains a duplicate member (decoding drops it)",
+                   members=names(tl))
+            break
+        if t == "UnionType":
+          check_sorted(tl, "UnionType.type_list")
+      elif t == "Signature":
+        ex = x.get("exceptions", [])
+        if ex:
+          c["raw_raise_lists"] += 1
+        check_sorted(ex, "Signature.exceptions")
+      for v_ in x.values():
+        walk(v_)
+    elif isinstance(x, list):
+      for v_ in x:
+        walk(v_)
+
+  walk(root.get("ast") if isinstance(root, dict) else root)
+  return out
+
+
 def _late_names(ast):
   from pytype.pytd import visitors
 
@@ -196,6 +262,15 @@ def _check_ast(u, src_path, metadata, counters, data):
     v(f"msgspec decode raises: {type(e).__name__}: {_mask_msg(e)}", "decode", error=str(e)[:600])
     return out
   c["decoded"] += 1
+  # raw: what is literally in the bytes, read WITHOUT pytype's node classes (no
+  # __post_init__, no node ordering code): sorted collections are sorted by an own key,
+  # unions are flat and duplicate-free
+  try:
+    for key, detail in raw_canonical_problems(data, c):
+      v(key, "raw", **detail)
+  except Exception as e:  # pylint: disable=broad-except
+    c["raw_walk_failed_not_judged"] += 1
+    c["raw_walk_failed:" + type(e).__name__] += 1
   try:
     exp = expected_ast(u)
   except Exception as e:  # pylint: disable=broad-except
